@@ -222,6 +222,10 @@ def run(check):
             jobs.append({"cfg": cfg, "script": [["tick", 50000], ["write", ep, sid, 20000, True]] + [["timer", ep]] * (md // 1000 + 2)
                          + [["deliver", 0]] * keep + [["drop", 0]] * 16,
                          "seed": 5, "hs_adv": False, "profile": "corpus-credit-exhausted-tail-loss"})
+    # regression corpus: locally initiated key updates while the client keeps changing its address (the two scripts with which the
+    # thorough tier found the key-retention defect 0120d2f)
+    jobs.append({'cfg': {'cc': 'cubic', 'version': 'v1->v2', 'suite': 'AES_128_GCM_SHA256'}, 'script': [['keyupdate', 'c'], ['deliver', 2], ['drop', 5], ['keyupdate', 'c'], ['deliver', 5], ['timer', 's'], ['dup', 3], ['deliver', 1], ['timer', 's'], ['changecid', 's'], ['timer', 'c'], ['rebind'], ['deliver', 7], ['deliver', 5], ['write', 's', 3, 30, False], ['rebind'], ['write', 'c', 2, 5, False], ['deliver', 6], ['deliver', 5], ['deliver', 1], ['keyupdate', 'c'], ['write', 'c', 1, 1300, True], ['write', 'c', 4, 2, True], ['write', 's', 1, 1300, False], ['dup', 4], ['rebind'], ['write', 's', 1, 1100, True], ['rebind'], ['keyupdate', 'c'], ['keyupdate', 's'], ['write', 's', 3, 2, False], ['rebind'], ['deliver', 5], ['deliver', 0], ['deliver', 6], ['changecid', 's'], ['timer', 'c'], ['deliver', 0], ['rebind'], ['drop', 5]], 'seed': 459791728, 'hs_adv': False, 'profile': 'corpus-keyupdate-rebind-1'})
+    jobs.append({'cfg': {'cc': 'reno', 'version': 'v1'}, 'script': [['changecid', 'c'], ['rebind'], ['drop', 3], ['drop', 6], ['keyupdate', 's'], ['write', 'c', 2, 1100, True], ['changecid', 'c'], ['timer', 's'], ['write', 'c', 2, 200, False], ['dup', 4], ['deliver', 5], ['deliver', 2], ['timer', 's'], ['changecid', 's'], ['rebind'], ['changecid', 'c'], ['write', 's', 1, 1, False], ['write', 's', 1, 1100, False], ['changecid', 's'], ['rebind'], ['write', 'c', 4, 2, False], ['write', 's', 4, 200, True], ['deliver', 2], ['deliver', 6], ['timer', 's'], ['deliver', 7], ['changecid', 's'], ['deliver', 6], ['write', 'c', 2, 30, True], ['rebind'], ['drop', 2], ['deliver', 6], ['rebind'], ['rebind'], ['deliver', 4], ['rebind'], ['deliver', 1], ['timer', 's'], ['deliver', 3], ['drop', 7], ['changecid', 'c'], ['write', 'c', 2, 1, False], ['write', 's', 1, 1300, False], ['write', 'c', 1, 2, True], ['deliver', 7], ['write', 'c', 2, 1300, True], ['deliver', 7], ['deliver', 3], ['deliver', 7], ['timer', 'c'], ['timer', 's'], ['write', 'c', 0, 30, True], ['write', 'c', 4, 1, True], ['drop', 5], ['write', 's', 3, 1100, True], ['deliver', 6], ['deliver', 1], ['deliver', 0], ['keyupdate', 's'], ['timer', 's'], ['deliver', 6], ['rebind'], ['drop', 3], ['timer', 'c'], ['timer', 'c'], ['timer', 'c'], ['dup', 5], ['dup', 4], ['dup', 0], ['drop', 4], ['deliver', 0], ['write', 's', 3, 200, True], ['drop', 5], ['timer', 's'], ['drop', 1], ['deliver', 3], ['timer', 'c'], ['deliver', 6], ['timer', 'c'], ['changecid', 's']], 'seed': 12238300, 'hs_adv': False, 'profile': 'corpus-keyupdate-rebind-2'})
     jobs += zrtt_jobs(rnd, 1 if check.quick else 20)
     results = runner.run_many(job_fn, jobs)
     check.cov["zero_rtt_packets_on_the_wire"] = sum(r["zrtt"] for r in results)
